@@ -48,6 +48,17 @@ def func_entries(cap: comp.Captured) -> dict:
     return out
 
 
+def regions(cap: comp.Captured):
+    """per text line: owner function ('' = main); blank lines inherit the previous owner."""
+    out = []
+    prev = ""
+    for oi in cap.line_obj:
+        if oi is not None:
+            prev = cap.owner[oi]
+        out.append(prev)
+    return out
+
+
 def shadow_names(cap: comp.Captured) -> dict:
     """text line index -> list of virtual register names per operand position (dest first)."""
     out = {}
@@ -227,6 +238,7 @@ def explore_ic10(prog, cap, b: Bounds, *, shadow=False, calls=False, push_pop=Fa
     concrete replay under a model of its path condition.  -> (events, stats dict)"""
     sh = shadow_names(cap) if shadow else None
     fe = func_entries(cap)
+    regs = regions(cap)
     mon_factory = (lambda: monitors.CallMonitor(fe, cap.func_meta, push_pop)) if calls else None
     side = IC10Side(prog, cap.main_end, shadow=sh, monitor_factory=mon_factory, halt_on_fallthrough=halt_on_fallthrough)
     ctx = sym.Ctx(timeout_ms=b.timeout_ms, max_paths=b.paths)
@@ -241,6 +253,7 @@ def explore_ic10(prog, cap, b: Bounds, *, shadow=False, calls=False, push_pop=Fa
             mon = mon_factory() if mon_factory else None
             m = ic10.Machine(prog, ctx, main_end=cap.main_end, monitor=mon, shadow=sh)
             m.halt_on_fallthrough = halt_on_fallthrough
+            m.regions, m.entries = regs, set(fe)
             st = m.run(max_steps=b.steps, max_effects=b.effects)
             stats["steps"] += m.steps
             if "bound" in st:
@@ -255,13 +268,18 @@ def explore_ic10(prog, cap, b: Bounds, *, shadow=False, calls=False, push_pop=Fa
                 if key in seen:
                     continue
                 seen.add(key)
-                model = ctx.model()
+                extra = e[-1] if (e[0] == "clobber" and e[-1] is not None) else None
+                if extra is not None:
+                    model = ctx.solver.model() if ctx._check(extra) == "sat" else None
+                else:
+                    model = ctx.model()
                 env = equiv.ModelEnv(model)
                 cctx = sym.Ctx(concrete_env=env)
                 cctx.begin_run([])
                 cmon = mon_factory() if mon_factory else None
                 cm = ic10.Machine(prog, cctx, main_end=cap.main_end, monitor=cmon, shadow=sh)
                 cm.halt_on_fallthrough = halt_on_fallthrough
+                cm.regions, cm.entries = regs, set(fe)
                 try:
                     cm.run(max_steps=b.steps, max_effects=b.effects)
                 except (sym.PathAbort, sym.BoundHit, sym.Unsupported):
@@ -270,7 +288,7 @@ def explore_ic10(prog, cap, b: Bounds, *, shadow=False, calls=False, push_pop=Fa
                 cevs = list(cm.events) + (cmon.events if cmon else [])
                 hit = [c for c in cevs if (c[0], c[1]) == key]
                 if hit:
-                    confirmed.append(dict(kind=e[0], line=e[1], detail=[str(x) for x in hit[0][2:]], env=env.dump(),
+                    confirmed.append(dict(kind=e[0], line=e[1], detail=[str(x) for x in hit[0][2:] if x is not None][:6], env=env.dump(),
                                           trace=[x.show() for x in cm.trace[:20]]))
                 else:
                     stats["spurious"] += 1
@@ -308,7 +326,7 @@ def task_monitor(spec: dict) -> dict:
         evs, stats = with_alarm(
             spec.get("timeout", 120), explore_ic10, prog, cap, b,
             shadow=spec.get("shadow", False), calls=spec.get("calls", False),
-            push_pop=bool(opts.get("use_push_pop_functions")), halt_on_fallthrough=spec.get("halt_on_fallthrough", True),
+            push_pop=bool(cap.effective.get("use_push_pop_functions", opts.get("use_push_pop_functions"))), halt_on_fallthrough=spec.get("halt_on_fallthrough", True),
         )
         out["stats"] = stats
         out["events"] = evs
